@@ -5,6 +5,8 @@ package props
 
 import (
 	"bytes"
+	"context"
+	stdjson "encoding/json"
 	"fmt"
 	"io"
 	"reflect"
@@ -229,6 +231,16 @@ func c12Calls() []c12Call {
 			w.out(b)
 			return fmt.Sprintf("%d bytes %x", len(b), fnvHash(b)) + errS(err)
 		}},
+		{"Marshal(60 KiB, just below the size above which buffers are not kept)", func(w *c12World) string {
+			b, err := json.Marshal(strings.Repeat("0123456789abcdef", 3750))
+			w.out(b)
+			return fmt.Sprintf("%d bytes %x", len(b), fnvHash(b)) + errS(err)
+		}},
+		{"Marshal(70 KiB)", func(w *c12World) string {
+			b, err := json.Marshal([]string{strings.Repeat("fedcba9876543210", 4400)})
+			w.out(b)
+			return fmt.Sprintf("%d bytes %x", len(b), fnvHash(b)) + errS(err)
+		}},
 		{"MarshalIndent", func(w *c12World) string {
 			b, err := json.MarshalIndent([]interface{}{1, "two", map[string]int{"three": 3}}, "", "  ")
 			w.out(b)
@@ -366,6 +378,132 @@ func c12Histories(c *work.Ctx) {
 			if k < 0 {
 				break
 			}
+		}
+	}
+}
+
+// ---- output sizes ---------------------------------------------------------------------------------
+
+func init() {
+	work.Register("C12", "c12.sizes", c12Sizes)
+}
+
+// c12Sizes: the returned slice is the caller's whatever the size of the document and whatever
+// state the pooled buffer is in. For every element count of a ladder (encoded sizes from a few
+// bytes to 600 KiB, dense around the powers of two and their growth points) and every
+// buffer-returning entry point: encode the document, then a small one, then the document again
+// and a larger one; after every step all earlier results must be unchanged; then the caller
+// scribbles over the first result (to its capacity) and later results must be what they are
+// from a fresh library.
+func c12Sizes(c *work.Ctx) {
+	var counts []int
+	for _, kib := range []int{1, 2, 4, 8, 16, 32, 48, 56, 60, 64, 72, 96, 128, 256, 512} {
+		for _, d := range []int{-64, -1, 0, 1, 64} {
+			n := (kib*1024 + d) / 7 // elements of 6 digits and a comma
+			if n > 0 {
+				counts = append(counts, n)
+			}
+		}
+	}
+	if !c.Quick() {
+		for n := 8000; n <= 11000; n += 50 {
+			counts = append(counts, n)
+		}
+	}
+	entries := []struct {
+		name string
+		run  func(x interface{}) ([]byte, error)
+	}{
+		{"Marshal", func(x interface{}) ([]byte, error) { return json.Marshal(x) }},
+		{"MarshalIndent", func(x interface{}) ([]byte, error) { return json.MarshalIndent(x, "", "") }},
+		{"MarshalNoEscape", func(x interface{}) ([]byte, error) { return json.MarshalNoEscape(x) }},
+		{"MarshalContext", func(x interface{}) ([]byte, error) { return json.MarshalContext(context.Background(), x) }},
+		{"MarshalWithOption(UnorderedMap)", func(x interface{}) ([]byte, error) { return json.MarshalWithOption(x, json.UnorderedMap()) }},
+	}
+	mk := func(n int) []int {
+		d := make([]int, n)
+		for i := range d {
+			d[i] = 100000 + i%900000
+		}
+		return d
+	}
+	for _, n := range counts {
+		for _, e := range entries {
+			id := fmt.Sprintf("sizes: %s of %d six-digit elements", e.name, n)
+			if !c.BeginS(id) {
+				continue
+			}
+			c11Reset()
+			c11SetPool(nil)
+			doc := mk(n)
+			type kept struct {
+				b    []byte
+				snap string
+				what string
+			}
+			var outs []kept
+			bad := ""
+			keep := func(what string, b []byte, err error) {
+				if err != nil {
+					bad = what + ": " + err.Error()
+					return
+				}
+				outs = append(outs, kept{b, string(b), what})
+				for _, o := range outs {
+					if string(o.b) != o.snap {
+						bad = fmt.Sprintf("the result of [%s] changed during [%s]", o.what, what)
+					}
+				}
+			}
+			p, msg := util.Safe(func() {
+				b, err := e.run(doc)
+				keep("the document", b, err)
+				b, err = e.run("aaaaaaaa")
+				keep("a small value", b, err)
+				b, err = e.run(map[string]string{"k": "bbbbbbbb"})
+				keep("a small map", b, err)
+				b, err = e.run(doc)
+				keep("the document again", b, err)
+				b, err = e.run(mk(n + n/3 + 5))
+				keep("a larger document", b, err)
+				if bad != "" {
+					return
+				}
+				// the caller scribbles over everything it was given, to capacity
+				for _, o := range outs {
+					full := o.b[:cap(o.b)]
+					for i := range full {
+						full[i] = 0xEE
+					}
+				}
+				b, err = e.run("cccccccc")
+				if err != nil || string(b) != `"cccccccc"` {
+					bad = fmt.Sprintf("after the caller overwrote the slices it was given, a small value encodes as %q (err %v)", clip(b), err)
+				}
+				want, _ := stdjson.Marshal(doc)
+				b, err = e.run(doc)
+				if err != nil || !bytes.Equal(bytes.ReplaceAll(b, []byte("\n"), nil), want) {
+					bad = fmt.Sprintf("after the caller overwrote the slices it was given, the document encodes differently (err %v, begins %q)", err, clip(b))
+				}
+			})
+			c.Outcome(fmt.Sprint(p, bad != ""))
+			sz := "below 56 KiB"
+			switch est := n * 7; {
+			case est >= 72*1024:
+				sz = "from 72 KiB"
+			case est >= 56*1024:
+				sz = "56..72 KiB"
+			}
+			switch {
+			case p:
+				c.Violation(fmt.Sprintf("output sizes : %s : panic", e.name), id, msg)
+			case bad != "":
+				c.Violation(fmt.Sprintf("output sizes : %s : %s : returned slice is not exclusively the caller's", e.name, sz), id, bad)
+			}
+			if c.WantSample() {
+				c.Sample(id)
+			}
+			c.EndCase()
 		}
 	}
 }
